@@ -34,6 +34,10 @@ def gen_layouts(r):
             w = r.choice((1, 2, 3, 8, 19, 30))
             cols['col_%d_%d' % (t, c)] = {'start': pos, 'end': pos + w}
             pos += w
+        if r.random() < 0.5:
+            items = list(cols.items())
+            r.shuffle(items)                 # configuration order need not be position order
+            cols = dict(items)
         out[tid] = cols
     return out
 
@@ -78,7 +82,8 @@ def make_file(r, layouts, expanded, enc, blocked, trailer=True, nrows=None):
         rows.append('TRAILER RECORD IP0000T1  %08d' % len(rows))
     nindex = len(rows)
     data = []
-    width = max([19] + [c['end'] for cols in layouts.values() for c in cols.values()]) + r.choice((0, 5, -3))
+    width = max([19] + [c['end'] for cols in layouts.values() for c in cols.values()]) + r.choice((0, 5, -3, -12, -30))
+    width = max(width, 22)
     for t in tids:
         for i in range(r.randrange(0, (nrows or 12) + 1)):
             k = r.randrange(200)
